@@ -1405,6 +1405,7 @@ func runOracles(h *history, r *runResult) []failure {
 		// history (C04), which the unchanged muxer keeps satisfying across a failed file creation
 		o.c18Retention()
 		o.c04()
+		o.c05()
 		return o.fails
 	}
 	if h.Leg == "init-failure" {
